@@ -18,6 +18,7 @@ from . import api, lib
 from . import calls as _calls  # noqa: F401  (mixes methods into Interp)
 from . import stmts as _stmts  # noqa: F401
 from . import lib2 as _lib2  # noqa: F401  (registers further library models)
+from . import lib_fs as _lib_fs  # noqa: F401  (ghost disk + persistence library models)
 from .engine import Frame, Outcome, fresh, parse_expr
 from .interp import Interp
 from .repo import Repo
@@ -31,13 +32,17 @@ VERIF = Path(__file__).resolve().parent.parent
 
 
 def load_sidecars():
-    api.REG = {"contracts": {}, "classes": {}, "invariants": {}, "lemmas": {}, "specs": {}, "ghosts": {}, "stmts": {}}
+    api.REG = {"contracts": {}, "classes": {}, "invariants": {}, "lemmas": {}, "specs": {}, "ghosts": {}, "stmts": {},
+               "disk_schema": {}, "ghost_functions": {}}
     cdir = Path(os.environ.get("PYVC_CONTRACTS") or (VERIF / "contracts"))
     for p in sorted(cdir.glob("*.py")):
         spec = importlib.util.spec_from_file_location("contracts_" + p.stem, p)
         mod = importlib.util.module_from_spec(spec)
         # the sidecar modules use `from pyvc.api import ...`: make them register into the current REG
         spec.loader.exec_module(mod)
+    from . import lib_fs
+    lib_fs.SCHEMA.clear()
+    lib_fs.SCHEMA.update(api.REG["disk_schema"])
     return api.REG
 
 
@@ -59,19 +64,18 @@ class Ob:
         self.detail = ""
 
 
-def skolemize(goal):
-    """A universally quantified GOAL is proved for fresh constants (equivalent, and much easier for the solver)."""
-    for _ in range(4):
-        if is_z3(goal) and z3.is_quantifier(goal) and goal.is_forall():
-            consts = [z3.Const(fresh_name("sk_" + goal.var_name(i)), goal.var_sort(i))
-                      for i in range(goal.num_vars())]
-            goal = z3.substitute_vars(goal.body(), *reversed(consts))
-        elif is_z3(goal) and z3.is_implies(goal) and z3.is_quantifier(goal.arg(1)) and goal.arg(1).is_forall():
-            q = goal.arg(1)
-            consts = [z3.Const(fresh_name("sk_" + q.var_name(i)), q.var_sort(i)) for i in range(q.num_vars())]
-            goal = z3.Implies(goal.arg(0), z3.substitute_vars(q.body(), *reversed(consts)))
-        else:
-            break
+def skolemize(goal, depth=0):
+    """A universally quantified GOAL is proved for fresh constants (equivalent, and much easier for the solver):
+    descends through implications (hypotheses kept) and conjunctions (forall distributes over them)."""
+    if not is_z3(goal) or depth > 12:
+        return goal
+    if z3.is_quantifier(goal) and goal.is_forall():
+        consts = [z3.Const(fresh_name("sk_" + goal.var_name(i)), goal.var_sort(i)) for i in range(goal.num_vars())]
+        return skolemize(z3.substitute_vars(goal.body(), *reversed(consts)), depth + 1)
+    if z3.is_implies(goal):
+        return z3.Implies(goal.arg(0), skolemize(goal.arg(1), depth + 1))
+    if z3.is_and(goal):
+        return z3.And(*[skolemize(c, depth + 1) for c in goal.children()])
     return goal
 
 
@@ -157,9 +161,45 @@ def discharge(ob: Ob, timeout_s: int, use_cvc5=True):
                 ob.time = time.time() - t0
                 _canary(ob)
                 return
-    # 3. everything, full budget
-    if r == z3.unknown and timeout_s > 4:
-        r, s = attempt(ob.assumptions, timeout_s * 1000)
+    if r == z3.unknown:
+        # refutation from the goal-relevant premises only: the premises dropped here share NO uninterpreted symbol
+        # (transitively) with the goal and the kept premises, so a model of the kept part extends to a model of
+        # everything whenever the dropped part is satisfiable on its own - and if it is not, the path is dead and the
+        # obligation vacuous (checked: a provably unsatisfiable dropped part cancels the refutation)
+        sub = relevant(ob.assumptions, to_z3(goal), 10 ** 6)
+        if len(sub) < len(ob.assumptions):
+            r4, s4 = attempt(sub, min(timeout_s, 10) * 1000)
+            if r4 == z3.unknown:
+                s4 = _solver(min(timeout_s, 10) * 1000)
+                lens = set()
+                for a in sub + [to_z3(goal)]:
+                    _collect_lens(a, lens)
+                for a in sub:
+                    s4.add(a)
+                s4.add(z3.Not(to_z3(goal)))
+                for nm in lens:
+                    s4.add(z3.Int(nm) <= 2)
+                r4 = s4.check()
+                if r4 != z3.sat:
+                    r4 = z3.unknown
+            if r4 == z3.sat:
+                kept = {a.get_id() for a in sub if is_z3(a)}
+                sd = _solver(3000)
+                for a in ob.assumptions:
+                    if is_z3(a) and a.get_id() not in kept:
+                        sd.add(a)
+                if sd.check() != z3.unsat:
+                    r, s = r4, s4
+                    # a fuller witness: add the quantifier-free dropped premises (path conditions) back
+                    s5 = _solver(5000)
+                    for a in ob.assumptions:
+                        if is_z3(a) and (a.get_id() in kept or not _has_quantifier(a)):
+                            s5.add(a)
+                    s5.add(z3.Not(to_z3(goal)))
+                    if s5.check() == z3.sat:
+                        s = s5
+            elif r4 == z3.unsat:
+                r = z3.unsat
     if r == z3.unknown:
         # refutation attempt in a small scope: bound every symbolic length by 2 (extra constraints can only
         # remove models, so a `sat` here is a genuine counter-model of the original VC)
@@ -175,6 +215,9 @@ def discharge(ob: Ob, timeout_s: int, use_cvc5=True):
         r3 = s3.check()
         if r3 == z3.sat:
             r, s = r3, s3
+    # 3. everything, full budget (after the cheap refutation attempts)
+    if r == z3.unknown and timeout_s > 4:
+        r, s = attempt(ob.assumptions, timeout_s * 1000)
     if r == z3.unknown and use_cvc5:
         try:
             res = cvc5_check(s.to_smt2().replace("(check-sat)", "") + "\n(check-sat)\n", timeout_s)
@@ -194,6 +237,19 @@ def discharge(ob: Ob, timeout_s: int, use_cvc5=True):
     else:
         ob.verdict = "unknown"
         ob.detail = s.reason_unknown()
+
+
+def _has_quantifier(e):
+    todo, seen = [e], set()
+    while todo:
+        x = todo.pop()
+        if x.get_id() in seen:
+            continue
+        seen.add(x.get_id())
+        if z3.is_quantifier(x):
+            return True
+        todo.extend(x.children())
+    return False
 
 
 _sym_cache: dict = {}
@@ -332,6 +388,26 @@ def concretize(v, model, st, depth=0):
         return out
     if isinstance(v, Opaque):
         return {"$opaque": str(ev(v.term)), "cls": v.cls}
+    if type(v).__name__ == "Disk":
+        # the content the checkpoint folder held BEFORE the function ran (only what the execution looked at)
+        out = {}
+        for k, val in list(v.init.items()):
+            if k[0] == "exists":
+                out.setdefault(k[1], {})["exists"] = concretize(val, model, st, depth + 1)
+            elif k[0] == "content":
+                kind, payload = val[0], val[1]
+                ent = out.setdefault(k[1], {})
+                ent["kind"] = kind
+                try:
+                    if kind == "h5":
+                        ent["datasets"] = {ds: concretize(a, model, st, depth + 1) for ds, a in payload.items()}
+                    elif kind in ("json", "csv"):
+                        ent["items"] = {kk: concretize(x, model, st, depth + 1) for kk, x in payload.items.items()}
+                    else:
+                        ent["value"] = concretize(payload, model, st, depth + 1)
+                except Exception as e:  # noqa: BLE001
+                    ent["error"] = str(e)
+        return {"$disk": out}
     if isinstance(v, Ref) and v.what == "dict":
         d = st.heap[v.rid]
         out = {}
@@ -478,6 +554,8 @@ def verify_function(key: str, repo: Repo, reg, timeout_s=20) -> FunctionResult:
     c = reg["contracts"][key]
     res.props = c.props
     info = repo.get_function(key)
+    if info is None and key in reg.get("ghost_functions", {}):
+        info = (key.split("::")[0], None, reg["ghost_functions"][key])    # specification-only composition
     if info is None:
         res.status, res.reason = "missing", f"{key} not found in the repository source"
         return res
@@ -568,6 +646,8 @@ def verify_function(key: str, repo: Repo, reg, timeout_s=20) -> FunctionResult:
         if ob.verdict == "skipped":
             continue
         if ob.verdict == "refuted":
+            if ob.line and ob.line not in g.setdefault("refuted_lines", []):
+                g["refuted_lines"].append(ob.line)
             if g["verdict"] != "refuted":
                 g["verdict"] = "refuted"
                 g["witness"] = ob.witness
@@ -600,6 +680,8 @@ def check_outcome(I: Interp, o: Outcome, c, pre: State, invs, fn, selfcls):
         ens = c.exit_ensures if c.is_cm else c.ensures
         for i, e in enumerate(ens):
             lbl = c.labels.get(i, f"post#{i}")
+            I.oblige(st, I.contract_truth(e, st), "F", lbl, node)
+        for lbl, e in (c.claims.items() if not c.is_cm else ()):
             I.oblige(st, I.contract_truth(e, st), "F", lbl, node)
         # (3) class invariant re-established
         if selfcls is not None:
